@@ -44,8 +44,10 @@ def rfMatchesB (b : Block) : Bool :=
 def dagSpecB (b : Block) (es : List Edge) : Bool :=
   let L := b.instrs.length
   (es.all fun e => decide (Valid L e.src) && decide (Valid L e.dst) && decide (e.src.pos L < e.dst.pos L)) &&
-  (!rfMatchesB b || (List.range L).all fun i =>
-    reachB es anyLabel (L + 2) .start (.instr i) && reachB es anyLabel (L + 2) (.instr i) .stop)
+  (!rfMatchesB b ||
+    let fromStart := reachFrom es anyLabel .start
+    (List.range L).all fun i =>
+      fromStart.contains (.instr i) && (reachFrom es anyLabel (.instr i)).contains .stop)
 
 /-- hypotheses of the theorem (as in C24): distinct frames per instruction, control-flow terminator -/
 def hypB (b : Block) : Bool :=
